@@ -126,7 +126,13 @@ func DecodeEmbeddedProps() DecodeInternalFn {
 
 func EncodeEmbeddedProps() EncodeInternalFn {
 	return func(m Manifest, node dom.ContainerBuilder) error {
-		for k, v := range node.Flatten() {
+		flat := node.Flatten()
+		for _, k := range m.StringData().List() {
+			if _, ok := flat[k]; !ok {
+				m.StringData().Remove(k)
+			}
+		}
+		for k, v := range flat {
 			m.StringData().Update(k, fmt.Sprintf("%v", v.Value()))
 		}
 		return nil
